@@ -265,7 +265,7 @@ func (g *refGhost) count() int {
 func streamGhost(o opts) {
 	r := newRand(o.seed, "ghost")
 	m := newMeta("ghost", o.seed)
-	m.Rule = "add/remove/contains/clear sequences on ghost rings of capacity {0,1,2,3,4,7,8,9,64}, fingerprints from a domain of 2..3x capacity including 0 and colliding probe starts; non-trivial = trace in which the ring wrapped and a removal left a hole; distinct by (capacity, wraps>0, holes>0, cleared)"
+	m.Rule = "add/remove/contains/clear sequences on ghost rings of capacity {0,1,2,3,4,7,8,9,64}, fingerprints from a domain of 2..3x capacity including 0 and colliding probe starts; every third 64-ring trace uses 56 fingerprints sharing one home slot (probe clusters longer than 32); rings of 65535, 65536 and 65536+k entries are checked against the most-recent-N rule (monitor only); non-trivial = trace in which the ring wrapped and a removal left a hole; distinct by (capacity, wraps>0, holes>0, cleared)"
 	w := newTraceWriter(o.out, "ghost")
 	caps := []int{0, 1, 2, 3, 4, 7, 8, 9, 64}
 	for t := 0; t < o.n; t++ {
@@ -282,9 +282,21 @@ func streamGhost(o opts) {
 				dom = append(dom, r.Uint64())
 			}
 		}
+		// a long probe cluster: dozens of live fingerprints sharing fingerprint 0's home slot
+		if n >= 64 && t%3 == 0 {
+			base := kioshun.VerifAvalanche(0) & uint64(slots-1)
+			dom = []uint64{0}
+			for tries := 0; tries < 400000 && len(dom) < 56; tries++ {
+				x := r.Uint64()
+				if kioshun.VerifAvalanche(x)&uint64(slots-1) == base {
+					dom = append(dom, x)
+				}
+			}
+			m.count("long_cluster_traces")
+		}
 		// colliding probe starts
 		if slots > 0 {
-			base := kioshun.VerifAvalanche(dom[3]) & uint64(slots-1)
+			base := kioshun.VerifAvalanche(dom[len(dom)-1]) & uint64(slots-1)
 			for tries, found := 0, 0; tries < 5000 && found < 3; tries++ {
 				x := r.Uint64()
 				if kioshun.VerifAvalanche(x)&uint64(slots-1) == base {
@@ -339,6 +351,33 @@ func streamGhost(o opts) {
 		}
 		if t < 3 {
 			m.sample(fmt.Sprintf("capacity=%d slots=%d ops=%d adds=%d holes=%d", n, slots, nops, adds, holes))
+		}
+	}
+	// rings larger than 2^16 entries (monitor only: the list model would take minutes): after cap+k distinct additions
+	// exactly the most recent cap fingerprints are remembered
+	if o.n >= 40 {
+		for _, n := range []int{65535, 65536, 65536 + 1 + r.Intn(6000)} {
+			g := kioshun.NewVerifGhost(n)
+			total := n + 3000
+			fp := func(i int) uint64 { return uint64(i)*0x9e3779b97f4a7c15 + 12345 }
+			for i := 0; i < total; i++ {
+				g.Add(fp(i))
+			}
+			bad := 0
+			for i := 0; i < total && bad < 3; i++ {
+				want := i >= total-n
+				if i > 200 && i < total-n-200 && i%97 != 0 {
+					continue // sample the middle of the forgotten range
+				}
+				if g.Contains(fp(i)) != want {
+					bad++
+					m.violate("C19", fmt.Sprintf("ghost(cap %d): after %d distinct additions contains(#%d)=%v, want %v (exactly the most recent %d are remembered)", n, total, i, !want, want, n), fmt.Sprintf("large ghost %d", n))
+				}
+			}
+			if g.Count() != n {
+				m.violate("C19", fmt.Sprintf("ghost(cap %d): count %d after %d distinct additions", n, g.Count(), total), fmt.Sprintf("large ghost %d", n))
+			}
+			m.count("large_ring_checks")
 		}
 	}
 	w.Close()
